@@ -10,15 +10,18 @@ def srcCfg : Cfg :=
     closeStreams := JediModel.Gen.C14.cleanupCloseStreams.filterMap Stream.ofName?,
     closePerStream := JediModel.Gen.C14.cleanupClosePerStream,
     closeCatch := JediModel.Gen.C14.cleanupCloseCatch,
-    usedSetBeforeRun := JediModel.Gen.C14.usedSetBeforeRun }
+    usedSetBeforeRun := JediModel.Gen.C14.usedSetBeforeRun,
+    listenCatch := JediModel.Gen.C14.listenRunCatch }
 
 def parseFault (phase cls : String) : Fault :=
   match phase with
   | "before_send" => .beforeSend
   | "after_send" => .afterSend
   | "trunc" => .trunc cls
-  | "raises" => .raises (if cls = "" then "RuntimeError" else cls)
-  | "raises_fatal" => .raisesFatal
+  -- "the helper raises": the except clause of `Listener.listen` read from the source decides whether
+  -- the helper reports the exception or dies, not the name of the phase
+  | "raises" => listenFault srcCfg (if cls = "" then "RuntimeError" else cls)
+  | "raises_fatal" => listenFault srcCfg (if cls = "" then "KeyboardInterrupt" else cls)
   | _ => .none
 
 def parsePlan (j : Json) : Plan :=
@@ -58,6 +61,9 @@ def handle (j : Json) : Json :=
   match str j "op" with
   | "trace" => jarr (trace (parsePlan j) {} ((arr j "ops").map parseOp))
   | "caught" => jbool (caught (str j "cls") (strs j "clause"))
+  | "listen" => jstr (match listenFault srcCfg (str j "cls") with
+      | .raises _ => "reported"
+      | _ => "dies")
   | op => jobj [("error", jstr ("unknown op " ++ op))]
 
 def main : IO Unit := Proto.run handle
